@@ -45,6 +45,10 @@ CHECKS = {
         "DESIGN.md 3/C09",
         TECH + "; pool-only harness, history oracle",
     ),
+    "C10": gw("Seeded schedule search over setcallback placements (before/between/after in-flight items and the peer's close), "
+              "endings by end-of-body / raise / sub-channel close / SIGKILL, receive() probes and MultiChannel receive queues; "
+              "callback sequence compared with the wire order from the hand-over point, endmarker exactly once.",
+              "DESIGN.md 3/C10", "history oracle vs. ground-truth wire log; kill faults"),
     "C14": gw("Seeded schedule search over histories of 1-5 remote_exec outcomes (return/raise/SystemExit/SIGINT/blocked) with "
               "sequential and overlapping submission on main_thread_only workers: main-thread identity, one at a time, "
               "submission order, documented deadlock error for overlaps only.",
